@@ -127,6 +127,8 @@ def _reference(case, x0, natural):
     marks = sorted({k * dt for k in range(n + 1)} | {b["ts"] for b in burns} | {b["te"] for b in burns})
     out = {0: np.array(x0, dtype=float)}
     x = np.array(x0, dtype=float)
+    flips = case.setdefault("_flips", [])
+    del flips[:]
     for a, b in zip(marks[:-1], marks[1:]):
         on = [bb for bb in burns if bb["ts"] <= a and b <= bb["te"]]
 
@@ -137,6 +139,10 @@ def _reference(case, x0, natural):
             return np.concatenate([y[3:], acc])
 
         sol = solve_ivp(f, (float(a), float(b)), x, method="DOP853", rtol=1e-12, atol=1e-14)
+        for bb in on:
+            # the plane-change thrust reverses when the satellite crosses the equatorial plane: a discontinuous right-hand side
+            if bb["kind"] == "plane_change" and (sol.y[2].min() < 0.0 <= sol.y[2].max()):
+                flips.append((float(b), bb["mag"]))
         x = sol.y[:, -1]
         if b % dt == 0:
             out[b // dt] = x.copy()
@@ -197,7 +203,12 @@ def scenario_burn(c, rec):
         # 2.2e-9 km/s after 2400 s; allowance 5e-5 km / 2e-8 km/s per hour on top of the base tolerance.  The smallest
         # generated mis-timing (1 s at 1e-7 km/s^2) is 1e-7 km/s and grows 1e-7 km per second afterwards.
         hours = k * dt / 3600.0
-        if dp > POS_TOL + 5e-5 * hours or dv > VEL_TOL + 2e-8 * hours:
+        # a thrust reversal (plane change crossing the equator) inside the burn is located by the adaptive integrators only to a
+        # fraction of a second (observed 0.15 s with RK45): allow 2 * mag * 0.5 s of velocity for every reversal so far
+        flip_dv = sum(2.0 * m * 0.5 for (tb, m) in c.get("_flips", []) if tb <= k * dt + dt)
+        if flip_dv:
+            rec.label("thrust_reversal_inside_burn")
+        if dp > POS_TOL + 5e-5 * hours + flip_dv * k * dt or dv > VEL_TOL + 2e-8 * hours + flip_dv:
             burn_s = te - ts
             raise Violation(
                 "burn_interval",
